@@ -489,6 +489,9 @@ class Model:
         return FXP_DATA, u32(rid) + sstr(avail[:want]) + tail
 
     def write_at(self, mfile: MFile, offset: int, data: bytes) -> None:
+        if not data:
+            return
+
         if offset > len(mfile.data):
             mfile.data += b'\0' * (offset - len(mfile.data))
 
